@@ -3,6 +3,7 @@ package main
 // registry engine: ViewContexts and State operation sequences on a single goroutine (C15a, C13a).
 
 import (
+	"time"
 	"sync"
 	"sync/atomic"
 	"context"
@@ -34,6 +35,8 @@ func (o rop) coq() string {
 	return "RShutdown"
 }
 
+var regBlocked int32 // operations of the registry that did not return (each costs a watchdog period; stop probing after a few)
+
 func hvOlder(a, b [2]uint64) bool { return a[0] < b[0] || (a[0] == b[0] && a[1] < b[1]) }
 
 // runRegistrySeq runs ops on a fresh real registry; returns the Coq observation and monitor findings.
@@ -52,9 +55,40 @@ func runRegistrySeq(ops []rop, rep *Report) string {
 	shutdownAt := -1
 	for i, o := range ops {
 		ok := true
+		// every operation of the registry returns at once, whatever happened before (after Shutdown in particular: the
+		// worker may ask for several contexts on its way out); one that does not is reported and the sequence abandoned
+		if shutdownAt >= 0 && atomic.LoadInt32(&regBlocked) >= 3 {
+			break
+		}
+		var ctx context.Context
+		var err error
+		returned := make(chan struct{})
+		go func(o rop) {
+			defer close(returned)
+			switch o.Kind {
+			case "for":
+				ctx, err = reg.For(state.NewHeightView(primitives.BlockHeight(o.H), primitives.View(o.V)))
+			case "cancel":
+				reg.CancelOlderThan(state.NewHeightView(primitives.BlockHeight(o.H), primitives.View(o.V)))
+			case "shutdown":
+				reg.Shutdown()
+			}
+		}(o)
+		select {
+		case <-returned:
+		case <-time.After(300 * time.Millisecond):
+			atomic.AddInt32(&regBlocked, 1)
+			what := fmt.Sprintf("operation %d (%s) of the context registry did not return within 300 ms", i, o.coq())
+			rep.finding("C15", "registry-operation-blocked", what, ops)
+			rep.finding("C16", "registry-operation-blocked", what+" (a worker asking for a context on its way out of a shutdown would hang there)", ops)
+			cops := make([]string, len(ops))
+			for k, oo := range ops {
+				cops[k] = oo.coq()
+			}
+			return fmt.Sprintf("(%s, %s)", cList(cops), cList(obs))
+		}
 		switch o.Kind {
 		case "for":
-			ctx, err := reg.For(state.NewHeightView(primitives.BlockHeight(o.H), primitives.View(o.V)))
 			ok = err == nil
 			key := [2]uint64{o.H, o.V}
 			if ok {
@@ -77,11 +111,9 @@ func runRegistrySeq(ops []rop, rep *Report) string {
 				}
 			}
 		case "cancel":
-			reg.CancelOlderThan(state.NewHeightView(primitives.BlockHeight(o.H), primitives.View(o.V)))
 			cancelArgs = append(cancelArgs, [2]uint64{o.H, o.V})
 			cancelPos = append(cancelPos, i)
 		case "shutdown":
-			reg.Shutdown()
 			if shutdownAt < 0 {
 				shutdownAt = i
 			}
